@@ -257,7 +257,9 @@ func init() {
 		Technique: "bounded exhaustive enumeration of JSON values (depth/width bounded, escape spellings in keys and strings) x whitespace layouts, compared with encoding/json's ordered decoding",
 		Rule: "all JSON values of depth <= 2 (thorough 3), width <= 2 over 28 scalar spellings and 15 key spellings (duplicate decoded keys excluded; reduced sets below depth 1) x 6 whitespace/newline layouts; " +
 			"Check()==nil, Example() decodes to the same ordered tree, GetAST() has the same shape with decoded keys/values; non-trivial = accepted documents",
-		Bounds: func(tier string) map[string]any { return map[string]any{"scalars": len(c03Scalars), "keys": len(c03Keys), "layouts": len(gen.JSONLayouts)} },
+		Bounds: func(tier string) map[string]any {
+			return map[string]any{"scalars": len(c03Scalars), "keys": len(c03Keys), "layouts": len(gen.JSONLayouts)}
+		},
 		Run: func(w *core.W) {
 			var i int64
 			c03Values(w, func(v gen.JV) {
